@@ -296,15 +296,6 @@ Section Script.
     | _ => None
     end.
 
-  (* tag 4: a list is updated in place by a whole assignment: the root is saved (re-keyed) in the middle of
-     _update while _suspend_sync is raised, the state point file is never written back *)
-  Definition class_midsave (i : input_C04) : bool :=
-    negb (is_uninit (i_prov i)) &&
-    match merge_args i with
-    | Some (ex, nw) => existsb (fun s => negb (str_eqb (calc_id frepr s) (calc_id frepr (i_old i)))) (fst (upd_root ex nw))
-    | None => false
-    end.
-
   (* tag 3: _update keeps values that compare == in Python (1 / 1.0 / True) and ignores None over a container *)
   Definition class_drop (i : input_C04) : bool :=
     match merge_args i with
@@ -322,12 +313,12 @@ Section Script.
   Definition class_early_copy (i : input_C04) : bool :=
     negb (has_cell i) && Nat.ltb 0 (i_shallow i) && rekey_route (i_route i).
 
+  (* tags 1 (stale cached_statepoint) and 4 (root saved in the middle of _update) were repaired in /repo
+     (fix: aa8b5a9, 3806f72) and are no longer classified: such a violation is reported. *)
   Definition known_tag (i : input_C04) (outs : list oval) : nat :=
     if holds_in i outs then 0
-    else if class_midsave i then 4
     else if class_drop i then 3
-    else if holds_mask (mkMask true false) i outs then 1
-    else if class_early_copy i && holds_mask (mkMask true true) i outs then 2
+    else if class_early_copy i && holds_mask (mkMask false true) i outs then 2
     else 0.
 End Script.
 
